@@ -46,6 +46,20 @@ CHECKS["C15"] = dict(
     technique="TLA+ spec + TLC exhaustive model check; behaviour replay; trace validation by TLC",
     design="DESIGN.md §5 C15")
 
+_OBJ_NOTE = "Trusted: TLC, rt/src/objad.rs (projection through the objects' own id methods, payload registers read from live payload memory, Weak::strong_count for contexts, ledger allocator). Reference trait family harness/objfam; bounds in evidence.tlc_runs."
+CHECKS["C06"] = dict(
+    text="TLC exhaustively checks spec/CGlueObj.tla (payloads with identity and drop counters, handles of kind box/mut/ref/arcsome viewed as single-trait object, group, cast or final variant, contexts, six-step by-value call) for DropAtMostOnce, NoDangling, OwnedExactlyOnce, BorrowNeverFrees; every behaviour of depth 2 over the full alphabet and thousands of simulated behaviours of depth 12 are replayed on real cglue objects built with trait_obj!/group_obj!/cast!/into!/as_ref!/as_mut!/upcast/Clone/wrapped children/by-value calls, comparing per step payload states, drop counts, handles and at quiescence the allocator ledger; the same executions are logged and validated by TLC (Trace_CGlueObj) with every invariant evaluated per state.",
+    note=_OBJ_NOTE, technique="TLA+ spec + TLC exhaustive model check; behaviour replay on real objects; trace validation by TLC", design="DESIGN.md §5 C06")
+CHECKS["C07"] = dict(
+    text="As C06 on the same specification, for CtxCountExact, CtxReleasedIffUnreferenced, CtxNotEarly, CtxAliveInCall and NoCtxLeak, with a deviation config that must (and does) violate NoCtxLeak. Context counts are read after every step; by-value calls on objects that hold the last context reference are run through an interposed vtable slot so that callee entry/exit, body, payload destructor and context destructor become trace events, and TLC accepts a context-destructor event only after the callee has returned. The borrowed-child context leak is reported as known finding F2.",
+    note=_OBJ_NOTE + " Known finding F2 listed in known_findings.json.", technique="TLA+ spec + TLC model check (ideal + deviation); behaviour replay; fine-grained trace validation by TLC with an interposed vtable", design="DESIGN.md §5 C07, §6 F2")
+CHECKS["C01"] = dict(
+    text="Call histories: spec/CGlueObj.tla gives every method of the reference family its own non-idempotent effect modulo 61; all behaviours of depth 2 and simulated behaviours of depth 12 (objects, groups, every successful cast/final view, clones, children, borrowed and boxed and Arc-held instances, with and without context) are replayed on the real objects and the returned value, the payload's register (read from its memory) and the instance reached (read through the object) are compared after every call; traces validated by TLC. Program space (all trait shapes of the grammar) is covered when evidence.program_space reports it.",
+    note=_OBJ_NOTE, technique="TLA+ spec + TLC; behaviour replay; trace validation by TLC", design="DESIGN.md §5 C01")
+CHECKS["C08"] = dict(
+    text="Group casts on spec/CGlueObj.tla: CastIff and SameInstance are checked by TLC; check/as_ref/as_mut/cast/into/upcast for 8 requested sets over a group with 5 optional traits and 6 implementing types (distinct enabled sets) on Box/Mut/Ref containers are replayed on the real macros with verdict, dispatch target and follow-up calls compared; failing cast/into must drop the container exactly once. The exhaustive n<=4 matrix is covered when evidence.cast_matrix reports it.",
+    note=_OBJ_NOTE, technique="TLA+ spec + TLC; behaviour replay; trace validation by TLC", design="DESIGN.md §5 C08")
+
 NOT_YET = {}
 
 def main():
